@@ -442,6 +442,6 @@ def run(R):
         'the vendored 2025b release is available only as the abbreviated tzdata.zi, which the extractor cannot read; it is not used',
         'string parsing of Rule/Zone lines (extractor) is outside pyvc: covered only by the bounded runs',
     ]
-    return check.finish(R, 'other',
+    return check.finish(R, 'exploration',
         'Numeric helpers and the out-of-bounds filter proved from the Python AST; end-to-end semantic preservation and the '
         'accounting clause decided by bounded runs of the real compiler against zic.')
